@@ -36,16 +36,17 @@ from forml.io import asset
 class Term:
     """Provenance term (immutable, picklable, indexable so that `Getter` can split it)."""
 
-    __slots__ = ('kind', 'items', '_digest', '_size')
+    __slots__ = ('kind', 'items', '_digest', '_size', 'nonce')
 
     def __init__(self, kind, *items):
         self.kind = kind
         self.items = items
         self._digest = None
         self._size = None
+        self.nonce = None  # which *execution* produced the term (never part of digest / equality)
 
     def __reduce__(self):
-        return (Term, (self.kind,) + tuple(self.items))
+        return (_rebuild, (self.kind, tuple(self.items), self.nonce))
 
     def __len__(self):  # `State.dump` / `SetState.set` log `len(state)`
         return 1
@@ -69,6 +70,27 @@ class Term:
 
     def __repr__(self):
         return f'<{self.kind} {digest(self)[:8]}>'
+
+
+def _rebuild(kind, items, nonce):
+    t = Term(kind, *items)
+    t.nonce = nonce
+    return t
+
+
+def stamp(term):
+    """Mark the term as the product of one fresh execution (process-safe: a uuid)."""
+    term.nonce = uuid.uuid4().hex
+    return term
+
+
+def origin(v):
+    """[digest, nonce] of the execution a value stems from (looking through getters); None for inputs."""
+    while isinstance(v, Term) and v.kind == 'proj':
+        v = v.items[1]
+    if isinstance(v, Term) and v.nonce is not None:
+        return [digest(v), v.nonce]
+    return None
 
 
 def digest(v) -> str:
@@ -213,8 +235,9 @@ class Stateless(flow.Actor):
         if FAIL['tag'] is not None and FAIL['tag'] == self._tag:
             FAIL['tag'] = None
             raise Injected(f'actor {self._tag} fails once')
-        res = Term('apply', self._tag, self._state, tuple(args))
-        record(self._rec, ['call', self._tag, 'apply', digest(res), _brief(res)])
+        res = stamp(Term('apply', self._tag, self._state, tuple(args)))
+        record(self._rec, ['call', self._tag, 'apply', digest(res), _brief(res), res.nonce,
+                           [o for o in map(origin, (self._state,) + tuple(args)) if o]])
         return res
 
     def get_params(self):
@@ -229,8 +252,10 @@ class Stateful(Stateless):
         # `Train.__call__` passes whatever the table links: arity errors are the interpreter's (not the actor's)
         if len(args) != 2:
             raise TypeError('train() takes features and labels')
-        self._state = Term('state', self._tag, self._state, args[0], args[1])
-        record(self._rec, ['call', self._tag, 'train', digest(self._state), _brief(self._state)])
+        prev = self._state
+        self._state = stamp(Term('state', self._tag, prev, args[0], args[1]))
+        record(self._rec, ['call', self._tag, 'train', digest(self._state), _brief(self._state), self._state.nonce,
+                           [o for o in map(origin, (prev, args[0], args[1])) if o]])
 
     def get_state(self):
         return self._state
@@ -260,11 +285,13 @@ class FakeRelease:
         self.prev = prev
 
     def dump(self, state):
-        record(self.rec, ['dump', digest(state), _brief(state)])
-        return Term('dumped', state)
+        res = stamp(Term('dumped', state))
+        record(self.rec, ['dump', digest(state), _brief(state), res.nonce, [o for o in [origin(state)] if o], digest(res)])
+        return res
 
     def put(self, tag):
-        record(self.rec, ['commit', [digest(s) for s in tag.states], [_brief(s) for s in tag.states]])
+        record(self.rec, ['commit', [digest(s) for s in tag.states], [_brief(s) for s in tag.states],
+                          [o for o in map(origin, tag.states) if o]])
         return FakeGeneration(self.rec, self.prev)
 
 
